@@ -89,6 +89,14 @@ def rejects (body : List String) (cond : String) : Bool :=
     | none => false
   | none => false
 
+/-- the limits and vocabulary the damage checks compare with are the format's: header at most 64 KiB, blob at
+    most 32 MiB (the PBF specification's hard limits), block types `OSMHeader` / `OSMData`, and exactly the three
+    required features this decoder implements -/
+theorem limits_pinned :
+    pbfConsts = ["maxBlobHeaderSize=64 * 1024", "maxBlobSize=32 * 1024 * 1024",
+      "parseCapabilities=map[string]bool{ \"OsmSchema-V0.6\": true, \"DenseNodes\": true, \"HistoricalInformation\": true, }",
+      "osmHeaderType=\"OSMHeader\"", "osmDataType=\"OSMData\""] := by decide
+
 /-- oversized and negative block sizes, unknown blob encoding, wrong uncompressed size, unexpected block type
     (first block and later blocks), unsupported required feature, plain node groups: each has its rejecting
     check; a reference out of range inside a block is recovered into an error by `Decode`; the mandatory dense
